@@ -120,11 +120,17 @@ def run(eng, rep, tier):
         return ev.value.has_const() and _f("_start_symbol") in (ev.ctrl | ev.xctrl) and \
             not any(isinstance(d, tuple) and d[0] == "self" and d[1] and d[1][0] not in ("_start_symbol",) for d in ev.ctrl | ev.xctrl)
     badr = [ev for ev in rets if not _from_generating(ev)]
-    ob.decide("R1", "C12.1", fi, "every-answer-from-the-generating-set", bool(rets) and not badr,
-              "every return of is_empty is computed from the generating symbols (%d returns)" % len(rets),
-              "a return of is_empty is not computed from the generating symbols of the grammar (answers read off other "
-              "state differ when the language is {epsilon} or the state is stale)", summ,
-              site=(badr[0].site.to_json() if badr else site(fi)))
+    # Not a necessary condition of the property (a shortcut can be sound: `a cached normal form with productions => not
+    # empty`), so an answer taken from other state is `cannot follow`, never a violation: whether the shortcut is sound is
+    # a fact about values (seed C12-m3 is unsound for L = {epsilon}, its corrected twin is sound; both end here).
+    if rets and not badr:
+        rep.holds("R1", "C12.1", fi.qname, "every-answer-from-the-generating-set",
+                  "every return of is_empty is computed from the generating symbols (%d returns)" % len(rets), site=site(fi))
+    else:
+        rep.error("R1", "C12.1", fi.qname, "every-answer-from-the-generating-set",
+                  "a return of is_empty is not computed from the generating symbols of the grammar but read off other state; "
+                  "whether that shortcut is sound (it is not for L = {epsilon} and a cached normal form) is a fact about "
+                  "values this rule cannot follow", site=(badr[0].site.to_json() if badr else site(fi)))
     ob.decide("R1", "C12.1", fi, "is_empty-both-answers", both_answers(summ), "both answers reachable",
               "is_empty can only give one answer", summ, site=site(fi))
     fb = prog.method("CFG", "__bool__")
